@@ -2239,6 +2239,8 @@ class Engine:
                 return self.exec_block(node.body, s1, k, ctx)
             if z3.is_false(t):
                 return self.exec_block(node.orelse, s1, k, ctx)
+            if self.merge_simple_if(node, s1, t, ctx):
+                return k(s1)
             sa, sb = s1.fork(), s1.fork()
             sa.assume(t)
             sb.assume(z3.Not(t))
@@ -2247,6 +2249,64 @@ class Engine:
             if self.feasible(sb):
                 self.exec_block(node.orelse, sb, k, ctx)
         return self.ev(node.test, st, f, ctx)
+
+    def merge_simple_if(self, node, s1, t, ctx):
+        """if-conversion: `if c: x = CONST; self.f = CONST` (no else, constants only) is executed without forking -- every variable / heap cell becomes
+        ite(c, new, old).  Returns False (nothing changed) when the statement does not have that shape."""
+        if node.orelse or not node.body:
+            return False
+
+        def const(v):
+            if isinstance(v, ast.Constant):
+                return True
+            while isinstance(v, ast.Attribute):
+                v = v.value
+            return isinstance(v, ast.Name) and v.id in ("rc", "BT")
+        for s_ in node.body:
+            if not (isinstance(s_, ast.Assign) and len(s_.targets) == 1 and const(s_.value) and not isinstance(s_.value, ast.Name)):
+                return False
+            tg = s_.targets[0]
+            if isinstance(tg, ast.Name):
+                if tg.id not in s1.env or tg.id in self.global_names:
+                    return False
+            elif not (isinstance(tg, ast.Attribute) and isinstance(tg.value, ast.Name) and tg.value.id in s1.env and s1.env[tg.value.id].s[0] == "ref"
+                      and len(classes_of(s1.env[tg.value.id].s)) == 1 and not s1.env[tg.value.id].s[2]
+                      and tg.attr in R.class_fields(classes_of(s1.env[tg.value.id].s)[0])):
+                return False
+        sa = s1.fork()
+        n0 = len(sa.pc)
+        sa.assume(t)
+        n_ob = len(self.obligations)
+        done = []
+        self.exec_block(node.body, sa, lambda s2: done.append(s2), ctx)
+        if len(done) != 1:
+            raise Unsupported("if-conversion: the branch did not come back exactly once")
+        sA = done[0]
+        # variables
+        merged_env = {}
+        for nm, va in sA.env.items():
+            vb = s1.env.get(nm)
+            if vb is None or va is vb:
+                continue
+            la, lb = (lift(va) if va.s == PY else va), (lift(vb) if vb.s == PY else vb)
+            if la.s != lb.s or not z3.is_expr(la.t) or not z3.is_expr(lb.t):
+                del self.obligations[n_ob:]
+                return False
+            merged_env[nm] = V(la.s, z3.If(t, la.t, lb.t))
+        for nm, v in merged_env.items():
+            s1.env[nm] = v
+        for nm, a in sA.heap.arrs.items():
+            b = self.arr(s1, nm)
+            if not a.eq(b):
+                s1.heap.arrs[nm] = z3.If(t, a, b)
+        for nm, ga in sA.ghost.items():
+            gb = s1.ghost.get(nm)
+            if gb is not None and ga is not gb and z3.is_expr(ga.t) and z3.is_expr(gb.t) and not ga.t.eq(gb.t):
+                s1.ghost[nm] = V(ga.s, z3.If(t, ga.t, gb.t))
+        for fct in sA.pc[n0 + 1:]:
+            s1.assume(z3.Implies(t, fct))
+        s1.wlog = list(s1.wlog) + [w for w in sA.wlog[len(s1.wlog):]]
+        return True
 
     def st_Assert(self, node, st, k, ctx):
         def f(s1, c):
